@@ -309,10 +309,14 @@ Definition fp_match (pat name : str) : mres := lazy_greedy (chunks_of pat) name.
 Definition fp_matches (pat name : str) : bool :=
   match fp_match pat name with MTrue => true | _ => false end.
 
-(** [Glob]'s test [Match(pattern, "")]: an error only when the empty name
-    gets as far as a malformed chunk. *)
+(** [Glob]'s test [Match(pattern, "")] on the pattern it is given: the source
+    directory (a non-empty path without magic characters; any stands for all)
+    followed by the relative pattern.  The literal beginning fails on the
+    empty name at once, so only a malformed FIRST chunk is reported here. *)
+Definition src_prefix : str := [47; 115; 47].   (* "/s/" *)
+
 Definition glob_accepts (pat : str) : bool :=
-  match fp_match pat [] with MBad | MFuel => false | _ => true end.
+  match fp_match (src_prefix ++ pat) [] with MBad | MFuel => false | _ => true end.
 
 (** [hasMeta] (unix): any of [*?[\]. *)
 Definition has_meta (pat : str) : bool :=
